@@ -86,7 +86,10 @@ __chk_resz(alist_t al, size_t keylen)
 		size_t ol = al->allz;
 		void *tmp;
 
-		al->allz = (al->allz * 2U) ?: 64U;
+		do {
+			/* double until the key fits */
+			al->allz = (al->allz * 2U) ?: 64U;
+		} while (UNLIKELY(!__fitsp(al, keylen)));
 		if (UNLIKELY((tmp = realloc(al->data, al->allz)) == NULL)) {
 			free_alist(al);
 			return -1;
@@ -129,7 +132,10 @@ alist_put(alist_t al, const char *key, void *val)
 {
 	size_t klen = strlen(key);
 
-	__chk_resz(al, klen);
+	if (UNLIKELY(__chk_resz(al, klen) < 0)) {
+		/* no room, and nothing left of the list either */
+		return;
+	}
 	memcpy(al->data + al->dend, key, klen);
 	/* round up to void** boundary */
 	with (const void **data = (const void**)al->data) {
